@@ -68,6 +68,15 @@ func BuildAction(n *wire.N, h Hist) (of.Action, error) {
 		return of.NewActionPopVlan(), nil
 	case "act_pop_mpls":
 		return of.NewActionPopMpls(uint16(u(n, "EtherType"))), nil
+	case "act_copy_ttl_out", "act_copy_ttl_in", "act_dec_mpls_ttl", "act_pop_pbb":
+		// no constructor: built as a literal of the exported type, the way a caller has to
+		return &of.ActionHeaderOnly{ActionHeader: of.ActionHeader{Type: uint16(wire.ActionCodes.ByKind[n.K]), Length: 8}}, nil
+	case "act_set_mpls_ttl":
+		return &of.ActionMplsTtl{ActionHeader: of.ActionHeader{Type: of.ActionType_SetMplsTtl, Length: 8}, MplsTtl: uint8(u(n, "MplsTtl"))}, nil
+	case "act_set_nw_ttl":
+		return &of.ActionNwTtl{ActionHeader: of.ActionHeader{Type: of.ActionType_SetNwTtl, Length: 8}, NwTtl: uint8(u(n, "NwTtl"))}, nil
+	case "act_push_pbb":
+		return &of.ActionPush{ActionHeader: of.ActionHeader{Type: of.ActionType_PushPbb, Length: 8}, EtherType: uint16(u(n, "EtherType"))}, nil
 	case "act_set_field":
 		f, _, err := BuildOxm(n.S["Field"], h.Variant)
 		if err == ErrNoAPI && h.Variant != 0 {
@@ -320,6 +329,9 @@ func BuildInstr(n *wire.N, h Hist) (of.Instruction, error) {
 		return of.NewInstrGotoTable(uint8(u(n, "TableId"))), nil
 	case "instr_write_metadata":
 		return of.NewInstrWriteMetadata(u(n, "Metadata"), u(n, "MetadataMask")), nil
+	case "instr_meter":
+		// no constructor: built as a literal of the exported type
+		return &of.InstrMeter{InstrHeader: of.InstrHeader{Type: of.InstrType_METER, Length: 8}, MeterId: uint32(u(n, "MeterId"))}, nil
 	case "instr_write_actions", "instr_apply_actions":
 		var in *of.InstrActions
 		if n.K == "instr_write_actions" {
@@ -414,6 +426,13 @@ func ExtractAction(a of.Action) (*wire.N, error) {
 		n.Set("Port", uint64(v.Port)).Set("MaxLen", uint64(v.MaxLen))
 	case *of.ActionHeader:
 		n.K = codeKind()
+	case *of.ActionHeaderOnly:
+		switch k := codeKind(); k {
+		case "act_copy_ttl_out", "act_copy_ttl_in", "act_dec_mpls_ttl", "act_pop_pbb":
+			n.K = k
+		default:
+			return nil, fmt.Errorf("header-only action type carries code %d", hdr.Type)
+		}
 	case *of.ActionSetqueue:
 		n.K = "act_set_queue"
 		n.Set("QueueId", uint64(v.QueueId))
